@@ -1,17 +1,23 @@
 #!/bin/sh
 # usage: scripts/check.sh <ID> [quick|thorough] [--replay path]
 # Rebuilds the driver against /repo's current working tree (build tag verif) and runs one property check.
+# VERIF_REPO names another copy of the repository (used only to evaluate seeded changes in scratch
+# worktrees while /repo itself is busy); the registered commands never set it.
 ID="$1"; TIER="${2:-quick}"; shift; shift
 ROOT=$(cd "$(dirname "$0")/.." && pwd)
 export VERIF_ROOT="$ROOT"
-export GOFLAGS=-mod=mod GOPROXY=off
+export GOPROXY=off
+export VERIF_REPO="${VERIF_REPO:-/repo}"
 export VERIF_TIER="$TIER"
 S=$(mktemp -d /tmp/verif-check.XXXXXX) || exit 2
 trap 'rm -rf "$S"' EXIT INT TERM
 cd "$ROOT/harness" || exit 2
-cp /repo/go.sum go.sum 2>/dev/null
+# the module file of this run lives in the scratch directory: nothing is written into the harness sources
+sed "s#=> /repo\$#=> $VERIF_REPO#" go.mod > "$S/go.mod"
+cp "$VERIF_REPO/go.sum" "$S/go.sum" 2>/dev/null
+export GOFLAGS="-mod=mod -modfile=$S/go.mod"
 if ! go build -tags verif -o "$S/driver" ./cmd/driver > "$S/build.log" 2>&1; then
-  echo "MACHINERY-FAILURE property=$ID cannot build the harness against /repo:"; cat "$S/build.log"; exit 2
+  echo "MACHINERY-FAILURE property=$ID cannot build the harness against $VERIF_REPO:"; cat "$S/build.log"; exit 2
 fi
 cd "$ROOT" || exit 2
 TMPDIR="$S" "$S/driver" "$ID" "$@"
